@@ -6,6 +6,7 @@ import BlockModes.Lemmas.SpecBlock
 import BlockModes.Thm.C02
 import BlockModes.Lemmas.Cts
 import BlockModes.Lemmas.CtsEcb
+import BlockModes.Lemmas.CtsDec
 /-
   C05 — ciphertext stealing follows NIST SP 800-38A Addendum CS1/CS2/CS3 (CBC and ECB).
 
@@ -128,6 +129,25 @@ theorem cbc_cs_length (v : CsVariant) (C : Cipher) (hC : C.Valid) (w : Nat) (iv 
 theorem ecb_cs_length (v : CsVariant) (C : Cipher) (hC : C.Valid) (w : Nat) (m : Bytes)
     (hm : C.bs ≤ m.length) : (C05aux.implEcbEnc v C w m).length = m.length := by
   rw [C05aux.ecb_cs_enc_refines v C hC w m hm]; exact C05aux.ecbSpec_length v C hC m hm
+
+/-! ### decryption = the NIST un-stealing formulation, on arbitrary input -/
+
+/-- **CBC-CS1/2/3 decrypt closures compute the NIST decryption from the ciphertext alone**: on *every* buffer of at
+    least one block (not only on ciphertext some encryptor produced) they equal `Spec.cbcCsDec` — un-arrange the
+    last `bs + d` bytes, decrypt `C_n`, complete `C*_{n-1}` with its stolen tail, CBC-decrypt. -/
+theorem cbc_cs_dec_refines (v : CsVariant) (C : Cipher) (hC : C.Valid) (w : Nat) (iv c : Bytes)
+    (hiv : iv.length = C.bs) (hc : C.bs ≤ c.length) :
+    C05aux.implCbcDec v C w iv c = Spec.cbcCsDec v C iv c := C05aux.cbc_cs_dec_refines v C hC w iv c hiv hc
+
+/-- **ECB-CS1/2/3 decrypt closures**, likewise. -/
+theorem ecb_cs_dec_refines (v : CsVariant) (C : Cipher) (hC : C.Valid) (w : Nat) (c : Bytes) (hc : C.bs ≤ c.length) :
+    C05aux.implEcbDec v C w c = Spec.ecbCsDec v C c := C05aux.ecb_cs_dec_refines v C hC w c hc
+
+/-- the two NIST formulations (written independently of the code and of each other) are mutually inverse. -/
+theorem spec_dec_inverts_spec_enc (v : CsVariant) (C : Cipher) (hC : C.Valid) (iv m : Bytes) (hiv : iv.length = C.bs)
+    (hm : C.bs ≤ m.length) :
+    Spec.cbcCsDec v C iv (Spec.cbcCsEnc v C iv m) = m ∧ Spec.ecbCsDec v C (Spec.ecbCsEnc v C m) = m :=
+  C05aux.spec_dec_enc v C hC iv m hiv hm
 
 /-- the legacy CS3 mirror does *not* satisfy the refinement at `L = bs` (see `legacy_cs3_one_block_defect`);
     non-vacuity of the hypotheses: the witness cipher is valid and `[5]` is a one-block message. -/
